@@ -26,9 +26,9 @@ func init() {
 				b = 2
 			}
 			return evid.Spec{ID: "C15", Level: "model_checking", Exhaustive: true,
-				Rule: "stateless exploration of goroutine interleavings of the real code (sync, go statements, loader channels redirected to a cooperative scheduler by mc/cmd/instrument) for 8 harnesses: H1 two connections authorising commands of the same user; " +
+				Rule: "stateless exploration of goroutine interleavings of the real code (sync, go statements, loader channels redirected to a cooperative scheduler by mc/cmd/instrument) for 10 harnesses: H1 two connections authorising commands of the same user; " +
 					"H2 accept loop with connections opening/closing/refused; H3/H3b lookups concurrent with one/two reloads of different configurations; H4-yaml/H4-json a consumer walking a published configuration while the same loader object loads the next document; " +
-					"H5 a connection multiplexing two sessions plus a second connection; H6 cancellation concurrent with serving. Every choice vector with at most the stated number of deviations from the default schedule (continue the running thread, else lowest id) is executed, " +
+					"H5 a connection multiplexing two sessions plus a second connection; H6 cancellation concurrent with serving; H7 a reload of a different configuration while a connection is being served; H8 two connections authorising sessions of the same user. Every choice vector with at most the stated number of deviations from the default schedule (continue the running thread, else lowest id) is executed, " +
 					"iterating the bound 0,1,..; each execution runs under -race with the scheduler's own hand-offs hidden from ThreadSanitizer and the modelled primitives issuing the real acquire/release edges, so a report is a pair of accesses the program's own synchronisation leaves unordered. " +
 					"Oracles: zero race reports; every lookup observes one complete configuration (H3); a published configuration is never written again (H4); functional replies unchanged. states = harnesses explored; transitions = primitive operations executed; traces = executions with no finding",
 				Assumptions: []string{"happens-before edges of the modelled primitives mirror sync.Mutex/RWMutex/WaitGroup/Once and channel semantics; where exact modelling is awkward more edges are issued (may hide, cannot invent a race)",
@@ -36,7 +36,7 @@ func init() {
 				Extra: map[string]interface{}{"deviation_bound_completed": b}}
 		},
 		Workers:      constInt(0, 0),
-		SchedWorkers: constInt(8, 8),
+		SchedWorkers: constInt(10, 10),
 		Run:          schedOnly,
 		Replay:       schedReplayDispatch,
 	}
